@@ -511,6 +511,15 @@ POOL = {
     "FeatureUnion": {"est": [], "named": "transformer_list", "checknames": False},
 }
 COMP_NAMES = ["a", "b", "c", "f1", "t"]
+# placeholder members: the strings the package's / scikit-learn's meta-estimators accept in place of an estimator
+PLACEHOLDERS = {900: "drop", 901: "passthrough"}
+COMP_ATOMS = [900, 900, 901, 0, 3]
+
+
+def _col_of(name):
+    """the column a named member of a (name, estimator, column) list is given by the harness: a function of the
+    NAME, so that at any point of any history a member standing on another member's column is visible"""
+    return COMP_NAMES.index(name) if name in COMP_NAMES else 5 + sum(map(ord, name)) % 3
 
 
 def pool_classes():
@@ -554,6 +563,10 @@ class Gen:
     def atom(self):
         return ["a", self.rng.choice([0, 0, 1, 2, 3, 4, 5, 6, 7])]
 
+    def comp_atom(self):
+        """a member of a named component list that is not an estimator: mostly the placeholder strings"""
+        return ["a", self.rng.choice(COMP_ATOMS)]
+
     def est(self, depth, cls=None):
         rng = self.rng
         if cls is None:
@@ -568,7 +581,7 @@ class Gen:
             elif p == spec.get("named"):
                 n = rng.choice([1, 2, 2, 3])
                 names = rng.sample(COMP_NAMES, n) if rng.random() < 0.92 else [rng.choice(COMP_NAMES) for _ in range(n)]
-                ps[p] = ["n", [[nm, self.est(depth - 1) if rng.random() < 0.9 else self.atom()] for nm in names]]
+                ps[p] = ["n", [[nm, self.est(depth - 1) if rng.random() < 0.82 else self.comp_atom()] for nm in names]]
             elif p in spec["est"]:
                 ps[p] = self.est(depth - 1) if rng.random() < 0.8 else self.atom()
             else:
@@ -615,8 +628,10 @@ def rand_value(rng, gen, pool, cls, param, kind="param"):
     spec = pool[cls]
     if kind == "param" and param == spec.get("named"):
         n = rng.choice([1, 2, 3])
-        return ["n", [[nm, gen.est(1)] for nm in rng.sample(COMP_NAMES, n)]]
-    if kind == "comp" or param in spec["est"]:
+        return ["n", [[nm, gen.est(1) if rng.random() < 0.85 else gen.comp_atom()] for nm in rng.sample(COMP_NAMES, n)]]
+    if kind == "comp":
+        return gen.est(rng.choice([1, 1, 2])) if rng.random() < 0.8 else gen.comp_atom()
+    if param in spec["est"]:
         return gen.est(rng.choice([1, 1, 2])) if rng.random() < 0.8 else gen.atom()
     return gen.atom() if rng.random() < 0.85 else gen.est(1)
 
@@ -688,8 +703,8 @@ ATOM_BASE = 1000
 def atom_value(i):
     if i == 0:
         return None
-    if i == 900:
-        return "drop"
+    if i in PLACEHOLDERS:
+        return PLACEHOLDERS[i]
     return ATOM_BASE + i
 
 
@@ -718,7 +733,7 @@ class World:
             return atom_value(node[1])
         if node[0] == "n":
             if triples:
-                lst = [(nm, self.build(v), 0) for nm, v in node[1]]
+                lst = [(nm, self.build(v), _col_of(nm)) for nm, v in node[1]]
             else:
                 lst = [(nm, self.build(v)) for nm, v in node[1]]
             self.lists.append((lst, self.ref(lst)))
@@ -734,8 +749,8 @@ class World:
     def ref(self, v):
         if v is None:
             return "a0"
-        if isinstance(v, str) and v == "drop":
-            return "a900"
+        if isinstance(v, str) and v in PLACEHOLDERS.values():
+            return "a%d" % [k for k, x in PLACEHOLDERS.items() if x == v][0]
         if isinstance(v, (int, np.integer)) and not isinstance(v, bool) and v >= ATOM_BASE:
             return "a%d" % (int(v) - ATOM_BASE)
         if hasattr(v, "get_params") and not isinstance(v, type):
@@ -890,6 +905,7 @@ def real_tree(case):
             alias = (snap, snap_refs, twin, twin_refs, obj)
         except BaseException:
             alias = None
+    moved = _triples_verdict(W, obj, "construct")
     for op in case["ops"]:
         name, _, arg = op.partition(":")
         try:
@@ -909,6 +925,7 @@ def real_tree(case):
                     try:
                         r = obj.set_params(**kw)
                         outs.append("ok " + W.show(obj) + ("" if r is obj else " returned-other"))
+                        moved = moved or _triples_verdict(W, obj, op)
                     except BaseException as e:
                         tok = _tree_err(e)
                         if len(nodes) > 1 and tok in ("E:value", "E:attr"):
@@ -922,6 +939,7 @@ def real_tree(case):
                     W.adopt_clone(obj, c)
                     obj = c
                     outs.append(W.show(obj))
+                    moved = moved or _triples_verdict(W, obj, op)
                 elif name == "fit":
                     fam = R.family(type(obj))
                     a, k = R.fit_args(fam, type(obj).__name__, D)
@@ -955,7 +973,45 @@ def real_tree(case):
             outs.append("E:op-%s:%s" % (name, canon_err(e)))
     if alias is not None:
         outs.extend(_alias_verdict(W, alias))
+    outs.extend(moved)
     return " ; ".join(outs)
+
+
+def _triples_verdict(W, obj, op):
+    """[] while every member of every (name, estimator, column) list in the composition stands on the column it was
+    given under its name (`_col_of`), else one `TRIPLES:column-moved:<name>@<col>:after-<op>` entry.  The harness
+    gives columns by name at construction and in every whole-list value, so replacing a member by name, a nested
+    write, a clone or anything else the property allows leaves this true."""
+    bad = []
+
+    def walk(v, d):
+        if d > 8 or bad:
+            return
+        if hasattr(v, "get_params") and not isinstance(v, type):
+            spec = W.pool.get(type(v).__name__, {})
+            try:
+                names = type(v)._get_param_names()
+            except Exception:
+                return
+            for p in names:
+                x = getattr(v, p, None)
+                if spec.get("triples") and p == spec.get("named") and isinstance(x, (list, tuple)):
+                    for t in x:
+                        if isinstance(t, tuple) and len(t) == 3 and isinstance(t[0], str):
+                            if t[2] != _col_of(t[0]) and not bad:
+                                bad.append("TRIPLES:column-moved:%s@%s:after-%s" % (t[0], t[2], op.split(":")[0]))
+                            walk(t[1], d + 1)
+                else:
+                    walk(x, d + 1)
+        elif isinstance(v, (list, tuple)):
+            for x in v:
+                walk(x, d + 1)
+    try:
+        walk(obj, 0)
+    except BaseException as e:
+        if isinstance(e, (KeyboardInterrupt, SystemExit)):
+            raise
+    return bad
 
 
 def _alias_verdict(W, alias):
@@ -1140,6 +1196,13 @@ def oracle_tree(case, real):
             kind = o_.split(":")[1]
             fails.append(("%s:alias:%s" % (root, kind),
                           "set_params on %s rewrote an object the caller holds (%s): history %s" % (root, o_, " ".join(case["ops"])[:300])))
+        if o_.startswith("TRIPLES:"):
+            # "whole components can be replaced by name" / "writes the component's parameter" / "clone reproduces an
+            # estimator with equal parameters": the OTHER members of the list parameter stay what they were
+            _, kind, where, after = o_.split(":")
+            fails.append(("%s:member-%s:%s" % (root, kind, after),
+                          "a member of a (name, estimator, column) list of %s stands on another column than it was given "
+                          "(%s) %s: history %s" % (root, where, after, " ".join(case["ops"])[:300])))
     # nested form reads the component's parameter: get_params(deep=True) of the untouched composition
     if case["ops"] and case["ops"][0] == "get:T" and outs and not outs[0].startswith("E:"):
         try:
@@ -1348,18 +1411,30 @@ def exhaustive_scope(pool):
                 else:
                     ps[p] = ["a", j % 7 + 1]
             tree = ["e", 100, key, ps]
-            ts = show_tree(tree, pool)
-            for path, node, kind, _ocls, _pn in keys_of(tree, pool):
-                k = "__".join(path)
-                if node[0] == "n":
-                    val = "n[c=%s]" % show_tree(leaf(3), pool)
-                elif node[0] == "e":
-                    val = show_tree(leaf(4), pool)
-                else:
-                    val = "a7"
-                cases.append({"kind": "tree", "tree": ts, "ops": ["set:%s=%s" % (k, val), "get:T"], "depth": 2})
-                if node[0] == "e":
-                    cases.append({"kind": "tree", "tree": ts, "ops": ["set:%s=a0" % k, "get:T", "clone"], "depth": 2})
+            trees = [tree]
+            if "named" in spec:
+                # the same composition with a placeholder member ('drop' / 'passthrough' / None) before, between
+                # and after the estimators: every key again (also the placeholder's own name)
+                items = [list(it) for it in ps[spec["named"]][1]]
+                items.insert(variant % 3, ["t", ["a", [900, 901, 0][variant % 3]]])
+                trees.append(["e", 100, key, dict(ps, **{spec["named"]: ["n", items]})])
+            for tree in trees:
+                ts = show_tree(tree, pool)
+                if tree is not trees[0]:
+                    cases.append({"kind": "tree", "tree": ts, "ops": ["get:T", "clone", "get:T"], "depth": 2})
+                for path, node, kind, _ocls, _pn in keys_of(tree, pool):
+                    k = "__".join(path)
+                    if node[0] == "n":
+                        val = "n[c=%s]" % show_tree(leaf(3), pool)
+                    elif node[0] == "e" or kind == "comp":
+                        val = show_tree(leaf(4), pool)
+                    else:
+                        val = "a7"
+                    cases.append({"kind": "tree", "tree": ts, "ops": ["set:%s=%s" % (k, val), "get:T"], "depth": 2})
+                    if node[0] == "e":
+                        cases.append({"kind": "tree", "tree": ts, "ops": ["set:%s=a0" % k, "get:T", "clone"], "depth": 2})
+                        if kind == "comp":
+                            cases.append({"kind": "tree", "tree": ts, "ops": ["set:%s=a900" % k, "get:T", "clone"], "depth": 2})
     return cases
 
 
